@@ -26,8 +26,15 @@ try:
     if r.returncode != 0:
         res["error"] = "patch does not apply to /repo HEAD: " + r.stderr[-400:]
     else:
-        rc = subprocess.call(["rsync", "-a", "--exclude", ".git", "--exclude", "replays", "/verif/", vc + "/"])
-        assert rc in (0, 24), rc   # 24: files vanished while copying (a concurrent build); harmless
+        # the COMMITTED tree of /verif (never a half-edited working tree), plus the build outputs for speed
+        os.makedirs(vc, exist_ok=True)
+        subprocess.check_call("git -C /verif archive HEAD | tar -x -C %s" % vc, shell=True)
+        for d in ("lean/.lake", "harness/target", "harness/target-repo"):
+            if os.path.isdir("/verif/" + d):
+                rc = subprocess.call(["rsync", "-a", "/verif/%s/" % d, "%s/%s/" % (vc, d)])
+                assert rc in (0, 24), rc   # 24: files vanished while copying (a concurrent build); harmless
+        os.makedirs(os.path.join(vc, "replays"), exist_ok=True)
+        os.makedirs(os.path.join(vc, "evidence"), exist_ok=True)
         env = dict(os.environ, VERIF_REPO=wt, CARGO_NET_OFFLINE="true")
         for p in props:
             t0 = time.time()
